@@ -1,4 +1,5 @@
 import PwVerif.Model.Exec
+import PwVerif.Model.ExecFine
 /-!
 # Nested composite execution (C06: failures inside nested macros, exception classes)
 
@@ -309,6 +310,114 @@ def nhistory (cfg : Cfg) : Tree E → List ((List Nat → Edit E) × List (List 
     match nrun cfg (nrestart t ed) acts with
     | some t' => nhistory cfg t' rest
     | none => none
+
+
+/-! ### the run cycle of the OUTERMOST runnable, with and without `raise_run_exceptions`
+
+Inside a composite every child is run with the default `raise_run_exceptions=True`; only the caller of the outermost
+run can ask for suppression. `Runnable.run → _run → (_finish_run) → _run_exception / _run_finally` for a runnable whose
+body (`on_run`: the wrapped function, or the whole nested run of a composite) returns or raises `e`:
+
+* `suppress`   – the caller passed `raise_run_exceptions=False`;
+* `onExec`     – the body runs on an executor: the caller gets the future, the rest happens in the done-callback;
+* `emits`      – `emit_ran_signal` (a `Workflow` runs itself with `False`);
+* `hasRecovery`– a recovery back end is configured (the runnable is the root of its graph: it is the outermost);
+* `fallThrough`– the tree before bc92c66: a suppressed LOCAL failure went on into `_finish_run(None)`. -/
+
+inductive Ret (E : Type) where
+  | value                 -- the processed result
+  | none                  -- `None`
+  | raised (e : E)
+  | future                -- the executor's future (whatever happens in the callback stays there)
+  deriving DecidableEq, Repr
+
+structure Cycle (E : Type) where
+  running : Bool
+  failed : Bool
+  failedSignals : Nat       -- how often the `failed` signal was fired
+  ranSignals : Nat
+  outputsWritten : Bool     -- `process_run_result` touched the output channels
+  recovery : Bool           -- a recovery file was written
+  ret : Ret E
+  deriving DecidableEq, Repr
+
+def runCycle (fallThrough suppress onExec emits hasRecovery : Bool) : Option E → Cycle E
+  | none =>     -- the body returned: `_finish_run` processes the result; `_run_finally`: emit `ran`
+    { running := false, failed := false, failedSignals := 0, ranSignals := if emits then 1 else 0,
+      outputsWritten := true, recovery := false, ret := if onExec then .future else .value }
+  | some e =>
+    if onExec then
+      -- done-callback: `running = False`; `future.result()` raises; `_run_exception`; (raise, swallowed by the future
+      -- machinery | return None); `finally: _run_finally`
+      { running := false, failed := true, failedSignals := if emits then 1 else 0, ranSignals := 0,
+        outputsWritten := false, recovery := hasRecovery && !suppress, ret := .future }
+    else if suppress && fallThrough then
+      -- before bc92c66: `_run_exception`, `_run_finally`, then `_finish_run(None)`: outputs overwritten, `_run_finally` again
+      { running := false, failed := true, failedSignals := if emits then 2 else 0, ranSignals := 0,
+        outputsWritten := true, recovery := false, ret := .none }
+    else
+      { running := false, failed := true, failedSignals := if emits then 1 else 0, ranSignals := 0,
+        outputsWritten := false, recovery := hasRecovery && !suppress, ret := if suppress then .none else .raised e }
+
+
+/-! ### the fine interleaving at every level of the tree
+
+`ExecFine` splits the done-callback of an executor child of ONE composite into its two calls on the parent. Here every
+composite of the tree has such a fine state (`F`: its coarse state, the children whose callback is half-way, late
+signals); a fine action is addressed by a path like a coarse one. Tree order of the two calls: emitting first. -/
+
+open PwVerif.ExecFine in
+inductive TreeF (E : Type) where
+  | leaf
+  | comp (d : Dag) (exc : Nat → E) (f : F) (kids : Nat → TreeF E)
+
+open PwVerif.ExecFine
+
+/-- forget the half-way callbacks: the coarse tree -/
+def TreeF.core : TreeF E → Tree E
+  | .leaf => .leaf
+  | .comp d exc f kids => .comp d exc f.core (fun k => (kids k).core)
+
+def Tree.fine : Tree E → TreeF E
+  | .leaf => .leaf
+  | .comp d exc s kids => .comp d exc { core := s, mid := [], late := [] } (fun k => (kids k).fine)
+
+/-- the first half of a composite child's callback can run only when that child's own loop has ended -/
+def okActF (kids : Nat → TreeF E) : ActF → Bool
+  | .cbFirst k => (kids k).core.over
+  | _ => true
+
+def nstepF (cfg : Cfg) : TreeF E → List Nat → ActF → Option (TreeF E)
+  | .leaf, _, _ => none
+  | .comp d exc f kids, [], a =>
+    if okActF kids a then
+      (stepF cfg FCfg.repaired (effDag d (fun k => (kids k).core)) f a).map (fun f' => .comp d exc f' kids)
+    else none
+  | .comp d exc f kids, k :: p, a =>
+    if f.core.st k = .out then
+      (nstepF cfg (kids k) p a).map (fun t' => .comp d exc f (updF kids k t'))
+    else none
+
+def nrunF (cfg : Cfg) (t : TreeF E) : List (List Nat × ActF) → Option (TreeF E)
+  | [] => some t
+  | (p, a) :: rest => match nstepF cfg t p a with
+    | some t' => nrunF cfg t' rest
+    | none => none
+
+/-- the coarse action a fine action amounts to (the second half of a callback: none) -/
+def coarseOf : ActF → Option Act
+  | .start => some .start
+  | .deliver => some .deliver
+  | .exit => some .exit
+  | .cbFirst k => some (.complete k)
+  | .cbSecond _ => none
+
+/-- some callback is half-way, somewhere in the tree -/
+def TreeF.midAt (t : TreeF E) (p : List Nat) : List Nat :=
+  match t, p with
+  | .leaf, _ => []
+  | .comp _ _ f _, [] => f.mid
+  | .comp _ _ _ kids, k :: q => (kids k).midAt q
 
 /-! ### finite presentation (driver, witnesses) -/
 
